@@ -248,6 +248,14 @@ def c17_2(ctx: Ctx) -> RuleResult:
             ok = ok or (zeros and shape_roles and idx_ok)
         res.add(gen, gen.node, "with a mask the result is zeros((R, P, V)) with the samples written at [..., mask]", ok,
                 "" if ok else f"masked result is `{show(rt, 120)}`", construct=f"{c.name}: masked scatter")
+        # the mask used for the scatter is the one the evaluator handed over, as it is (an empty mask stays a mask)
+        mask_fields = {a[3][1][1][2] for a in masked if a[3][0] == "tuple" and len(a[3][1]) > 1 and a[3][1][1][0] == "attr" and "mask" in a[3][1][1][2]}
+        for fld in sorted(mask_fields):
+            for m_, val in ctx.cg.field_stores(c, fld):
+                ok = val[0] == "param" and "mask" in val[2]
+                res.add(m_, m_.node, f"the mask field `{fld}` is the mask argument itself", ok,
+                        "" if ok else f"`{fld}` is stored as `{show(val, 90)}`: a mask that selects nothing (all variables of the sampler fixed) or a changed mask lets the sampler perturb variables it does not handle",
+                        construct=f"{c.name}: mask field {fld}")
         res.add(gen, gen.node, "the sample dimension is V without a mask and mask.sum() with one", dim_ok_all, "" if dim_ok_all else "sample dimension does not follow the mask",
                 construct=f"{c.name}: sample dimension")
     res.floor = 4
@@ -318,3 +326,16 @@ def c17_3(ctx: Ctx) -> RuleResult:
                             construct=f"{c.name}: qmc scale bounds")
     res.floor = 4
     return res
+
+
+@rule(P)
+def c17_4(ctx: Ctx) -> RuleResult:
+    """Shared with C09.4: the mask handed to sampler k is `variables.mask & (gradient.samplers == k)`; the
+    sampler's zeros for fixed variables and for variables of other samplers depend on it."""
+    from .c09 import c09_4
+
+    r = c09_4(ctx)
+    for i in r.instances:
+        i.rule = "C17.4"
+    r.rule, r.title = "C17.4", "each sampler is created with the mask of exactly the free variables assigned to it"
+    return r
